@@ -293,6 +293,8 @@ type World struct {
 	Restarts    int
 	Delivered   []string // ClOrdID (11) of every application message handed to FromApp, in order
 	Loop        *LoopCtl // non-nil: run-loop mode
+	lastSent    *quickfix.Message
+	sameN       int
 	sqlDSN      string   // SQL-store worlds: the data source (statement failures are planned per data source)
 	Hung        bool     // a handler did not return (the world is abandoned)
 	applyStart  int
@@ -770,6 +772,7 @@ type Event struct {
 	SendType string
 	SendNews bool
 	SendEmpty bool // the application message carries no body field at all
+	SendSame  bool // the Message object of the previous send is changed and submitted again
 	// FailWrite: during this send the k-th write of the session's file store fails (file-store worlds only)
 	FailWrite int
 	// Behind: a second inbound message already buffered in the inbound channel while In is handled (pipelined by
@@ -921,6 +924,13 @@ func (w *World) applySync(e *Event) {
 		w.VS.Timeout(e.To)
 	case "send":
 		m := quickfix.NewMessage()
+		if e.SendSame && w.lastSent != nil {
+			// the application changes one field of the object it submitted before and submits it again
+			m = w.lastSent
+			w.sameN++
+			m.Body.SetString(58, fmt.Sprintf("again-%d", w.sameN))
+		}
+		w.lastSent = m
 		m.Header.SetString(35, "D")
 		if e.SendType != "" {
 			m.Header.SetString(35, e.SendType)
